@@ -118,7 +118,7 @@ CycleFail(pre, line, post) ==
   F("C01.cap", C01cap(post)) \cup F("C01.free", C01free(post))
   \cup F("C01.single", C01single(post)) \cup F("C01.views", C01views(post))
   \cup F("C03.post", C03post(post)) \cup F("C03.assign", C03assign(post, pl))
-  \cup F("C03.renew", C03renew(post, pl))
+  \cup F("C03.renew", C03renew(post, pl)) \cup F("C03.leaseEnd", C03leaseEnd(post, pl))
   \cup F("C04.limit", C04limit(post)) \cup F("C04.counters", C04counters(post))
   \cup F("C05.unique", C05unique(post)) \cup F("C05.range", C05range(post))
   \cup F("C05.placedHas", C05placedHas(post)) \cup F("C05.pendingNone", C05pendingNone(post))
